@@ -26,6 +26,8 @@ VALUES = {
     "s-date": "2020-01-02", "s-datetime": "2020-01-02T03:04:05+00:00", "s-uuid": UU, "s-member-a": "a", "s-member-b": "b", "s-nonmember": "c", "s-wrongcase": "A",
     "s-const": "k", "i-5": 5, "i-0": 0, "i-neg": -2, "i-1": 1, "i-2": 2, "f-1.5": 1.5, "f-5.0": 5.0, "b-true": True, "b-false": False,
     "list": [1], "obj": {"a": 1}, "s-notdate": "not a date", "s-x": "x",
+    # integers a double cannot represent: JSON integers are exact
+    "i-2p53+1": 2 ** 53 + 1, "i-int64max": 2 ** 63 - 1, "i-neg-big": -(2 ** 62) - 1, "i-1e20+1": 10 ** 20 + 1,
 }
 V, I, L = "VALID", "INVALID", "LENIENT"
 D = datetime.date(2020, 1, 2)
@@ -45,7 +47,7 @@ def table(kind):
         for k in ("i-5", "f-1.5", "b-true", "list", "obj"):
             put(k, I)                          # a non-string JSON value is not a valid string default
     elif kind == "int":
-        for k in ("i-5", "i-0", "i-neg", "i-1", "i-2"):
+        for k in ("i-5", "i-0", "i-neg", "i-1", "i-2", "i-2p53+1", "i-int64max", "i-neg-big", "i-1e20+1"):
             put(k, V, VALUES[k])
         put("s-num", L, 7, 7)
         put("f-5.0", L, 5, 5)
@@ -99,11 +101,12 @@ def table(kind):
         put("i-5", V, 5)
         put("s-plain", V, "abc")
         put("i-0", V, 0)
+        put("i-int64max", V, 2 ** 63 - 1)
         put("f-1.5", L, None, None)
         put("b-true", L, None, None)
         put("list", L, None, None)
     elif kind == "any":
-        for k in ("s-plain", "i-5", "f-1.5", "b-true", "b-false", "list", "obj", "i-0", "s-empty", "s-dquote"):
+        for k in ("s-plain", "i-5", "f-1.5", "b-true", "b-false", "list", "obj", "i-0", "s-empty", "s-dquote", "i-2p53+1", "i-int64max"):
             put(k, V, VALUES[k])
     return t
 
@@ -121,7 +124,7 @@ def _schema(kind, comps):
     return K.schema(kind, comps)
 
 
-def _doc(kind, value, route, pos, lit):
+def _doc(kind, value, route, pos, lit, req="opt"):
     comps = {}
     base = _schema(kind, comps)
 
@@ -145,6 +148,11 @@ def _doc(kind, value, route, pos, lit):
     if pos == "model":
         if route in ("direct", "ref-wrapper"):
             comps["M"] = {"type": "object", "properties": {"p": sch, "other": {"type": "integer"}}}
+            if req != "opt":
+                # REQUIRED and defaulted, declared before / after a required property that has no default
+                comps["M"]["required"] = ["p", "other"]
+                if req == "req-last":
+                    comps["M"]["properties"] = {"other": {"type": "integer"}, "p": sch}
         elif route == "allof-override":
             comps["Base"] = {"type": "object", "properties": {"p": copy.deepcopy(base), "other": {"type": "integer"}}}
             comps["M"] = {"allOf": [{"$ref": "#/components/schemas/Base"}, {"type": "object", "properties": {"p": with_default(base)}}]}
@@ -177,6 +185,10 @@ def cases(tier):
                             continue
                         yield {"labels": [f"kind={kind}", f"default={label}", f"route={route}", f"pos={pos}"] + (["literal_enums"] if lit else []),
                                "payload": {"kind": kind, "label": label, "route": route, "pos": pos, "literal_enums": lit}}
+                        if pos == "model" and route == "direct" and t[label][0] == V:
+                            for req in ("req-first", "req-last"):
+                                yield {"labels": [f"kind={kind}", f"default={label}", f"route={route}", f"pos={pos}", req] + (["literal_enums"] if lit else []),
+                                       "payload": {"kind": kind, "label": label, "route": route, "pos": pos, "literal_enums": lit, "req": req}}
 
 
 def _strip_defaults(o):
@@ -216,13 +228,14 @@ def run_case(p):
     kind, label, route, pos = p["kind"], p["label"], p["route"], p["pos"]
     value = VALUES[label]
     verdict, exp_py, exp_js = table(kind)[label]
-    doc = _doc(kind, value, route, pos, p["literal_enums"])
+    req = p.get("req", "opt")
+    doc = _doc(kind, value, route, pos, p["literal_enums"], req)
     res = gen.generate(doc, literal_enums=p["literal_enums"])
     if res.crash:
         return {"skipped_crash": True, "outcome": f"crash:{res.crash['type']}@{res.crash['where']}", "nontrivial": False}
     if res.rejected:
         return {"outcome": "rejected", "nontrivial": False}
-    key = f"{kind}/{label}/{route}/{pos}" + ("/literal" if p["literal_enums"] else "")
+    key = f"{kind}/{label}/{route}/{pos}" + ("/literal" if p["literal_enums"] else "") + (f"/{req}" if req != "opt" else "")
     viol = []
     has_diag = bool(res.diags)
     got_py = got_js = "<no-artefact>"
@@ -240,7 +253,7 @@ def run_case(p):
                     if got_py is inspect.Parameter.empty:
                         got_py = "<no-default>"
                     try:
-                        e = cls().to_dict()
+                        e = (cls() if req == "opt" else cls(other=1)).to_dict()
                         got_js = e.get("p", "<absent>")
                     except Exception as exc:  # noqa: BLE001
                         got_js = f"<raises {type(exc).__name__}: {exc}>"
